@@ -25,7 +25,7 @@ def opsCtc (op : String) (ins outs : List String) : Option String :=
     let i ← parseBox inb; let o ← parseBox outb
     pure (if Box.subset o i then (if showBox o == showBox i then "ok nocontract" else if Box.isEmpty o then "ok emptied" else "ok contract")
           else "FAIL output-not-in-input")
-  | "ctckeep", [_, inb, pt], [outb] => do
+  | "ctckeep", [_, inb, pt, _], [outb] => do   -- (4th token: the libm-based hyperbolic functions of the constraints, for the attribution of the C01 finding)
     -- constraints with elementary functions: the point is feasible by construction (MPFR oracle of the harness)
     let i ← parseBox inb; let p ← parsePoint pt; let o ← parseBox outb
     if !(Box.subset o i) then pure "FAIL not-contracting" else
